@@ -44,16 +44,16 @@ def run(m: Model, r: Report, tier: str) -> None:
     reads = [n for n in ast.walk(rf.node) if isinstance(n, ast.Call) and isinstance(n.func, ast.Attribute) and n.func.attr.startswith("read")
              and ast.unparse(n.func.value) == "self.reader"]
     args = [ast.unparse(x.args[0]).replace(" ", "") for x in reads if x.args]
-    short_if = [n for n in walk_no_nested(rf.node) if isinstance(n, ast.If) and ast.unparse(n.test).replace(" ", "") == f"hdr.Len<{rsize}"]
+    short_if = [n for n in walk_no_nested(rf.node) if isinstance(n, ast.If) and m.mtext(rf, n.test).replace(" ", "") == f"_L.Len<{rsize}"]
     ok_short = False
     if len(short_if) == 1:
-        inner = [n for n in ast.walk(short_if[0]) if isinstance(n, ast.If) and ast.unparse(n.test).replace(" ", "") == "hdr.Len>0"]
-        ok_short = len(inner) == 1 and any("readexactly(hdr.Len)" in ast.unparse(s) for s in inner[0].body) and \
+        inner = [n for n in ast.walk(short_if[0]) if isinstance(n, ast.If) and m.mtext(rf, n.test).replace(" ", "") == "_L.Len>0"]
+        ok_short = len(inner) == 1 and any("readexactly(_L.Len)" in m.mtext(rf, s) for s in inner[0].body) and \
             any(isinstance(s, ast.Return) for s in short_if[0].body)
     r.check(ok_short, "R2", f"{rf.qualname}#short-frames",
             f"frames shorter than the {rsize}-byte address header must still be consumed completely (hdr.Len bytes) before returning", loc=rf.loc)
     dl = [n for n in walk_no_nested(rf.node) if isinstance(n, ast.Assign) and isinstance(n.targets[0], ast.Name)
-          and ast.unparse(n.value).replace(" ", "") == f"hdr.Len-{rsize}"]
+          and m.mtext(rf, n.value).replace(" ", "") == f"_L.Len-{rsize}"]
     long_ok = len(dl) == 1 and f"{rsize}" in args and dl[0].targets[0].id in args
     r.check(long_ok, "R2", f"{rf.qualname}#long-frames",
             f"after the {rsize}-byte address header exactly hdr.Len - {rsize} payload bytes must be read (reads: {args})", loc=rf.loc)
@@ -104,15 +104,15 @@ def run(m: Model, r: Report, tier: str) -> None:
     # ---------------------------------------------------------------- R6 / R7
     ack = m.require_function(f"{HSFZ}.HSFZConnection._read_ack")
     diag = m.require_function(f"{HSFZ}.HSFZConnection.read_diag_request")
-    tr.address_filter(r, "R6", ack, {"req_hdr.src_addr != self.src_addr", "req_hdr.dst_addr != self.dst_addr"})
-    tr.address_filter(r, "R6", diag, {"req_hdr.src_addr != self.dst_addr", "req_hdr.dst_addr != self.src_addr"})
+    tr.address_filter(r, "R6", ack, {"req_hdr.src_addr != self.src_addr", "req_hdr.dst_addr != self.dst_addr"}, m)
+    tr.address_filter(r, "R6", diag, {"req_hdr.src_addr != self.dst_addr", "req_hdr.dst_addr != self.src_addr"}, m)
     def first_if_test(fn, needle):
-        return [ast.unparse(n.test).replace(" ", "") for n in walk_no_nested(fn.node) if isinstance(n, ast.If) and needle in ast.unparse(n.test)]
-    r.check(first_if_test(ack, "HSFZStatus") == ["hdr.CWord!=HSFZStatus.Ack"], "R6", f"{ack.qualname}#control-word",
+        return [m.mtext(fn, n.test).replace(" ", "") for n in walk_no_nested(fn.node) if isinstance(n, ast.If) and needle in ast.unparse(n.test)]
+    r.check(first_if_test(ack, "HSFZStatus") == ["_L.CWord!=HSFZStatus.Ack"], "R6", f"{ack.qualname}#control-word",
             f"ack control word test: {first_if_test(ack, 'HSFZStatus')}", loc=ack.loc)
-    r.check(first_if_test(diag, "HSFZStatus") == ["hdr.CWord!=HSFZStatus.Data"], "R6", f"{diag.qualname}#control-word",
+    r.check(first_if_test(diag, "HSFZStatus") == ["_L.CWord!=HSFZStatus.Data"], "R6", f"{diag.qualname}#control-word",
             f"data control word test: {first_if_test(diag, 'HSFZStatus')}", loc=diag.loc)
-    r.check(first_if_test(ack, "prev_data") == ["prev_data[:5]!=data"] or first_if_test(ack, "prev_data") == ["data!=prev_data[:5]"], "R6",
+    r.check(first_if_test(ack, "prev_data") == ["prev_data[:5]!=_L"] or first_if_test(ack, "prev_data") == ["_L!=prev_data[:5]"], "R6",
             f"{ack.qualname}#echo", f"ack echo test: {first_if_test(ack, 'prev_data')}; an ack echoes the first five request bytes", loc=ack.loc)
     tr.requeue_before_exit(r, "R7", ack, "self._read_queue")
     tr.requeue_before_exit(r, "R7", diag, "self._read_queue")
@@ -131,17 +131,15 @@ def run(m: Model, r: Report, tier: str) -> None:
 
     # ---------------------------------------------------------------- R9 write path
     wd = m.require_function(f"{HSFZ}.HSFZConnection.write_diag_request")
-    wsrc = ast.unparse(wd.node).replace(" ", "")
-    r.check(f"HSFZHeader(Len=len(data)+{rsize},CWord=HSFZStatus.Data)" in wsrc and "HSFZDiagReqHeader(src_addr=self.src_addr,dst_addr=self.dst_addr)" in wsrc and
-            "awaitself.write_diag_request_raw(hdr,req_hdr,data)" in wsrc, "R9", f"{wd.qualname}#frame",
+    r.check(m.has(wd, f"HSFZHeader(Len=len(data) + {rsize}, CWord=HSFZStatus.Data)") and m.has(wd, "HSFZDiagReqHeader(src_addr=self.src_addr, dst_addr=self.dst_addr)") and
+            m.has(wd, "self.write_diag_request_raw(hdr, req_hdr, data)"), "R9", f"{wd.qualname}#frame",
             f"a request must be framed as Data with Len = len(data) + {rsize} and the (tester, ecu) address pair", loc=wd.loc)
     order = [ast.unparse(n) for n in ast.walk(wr.node) if isinstance(n, ast.Await)]
     iw = next((i for i, t in enumerate(order) if "self.write_frame(" in t), None)
     ia = next((i for i, t in enumerate(order) if "self._read_ack(" in t), None)
     r.check(iw is not None and ia is not None and iw < ia, "R9", f"{wr.qualname}#write-then-ack", "the frame must be written before waiting for its ack", loc=wr.loc)
     wf = m.require_function(f"{HSFZ}.HSFZConnection.write_frame")
-    fs = [ast.unparse(n) for n in ast.walk(wf.node) if isinstance(n, (ast.Expr, ast.AugAssign))]
-    r.check("self.writer.write(buf)" in fs and "await self.writer.drain()" in fs and "buf += hdr.pack()" in fs and "buf += req_hdr.pack()" in fs and "buf += data" in fs,
+    r.check(m.has(wf, "self.writer.write(buf)") and m.has(wf, "self.writer.drain()") and m.has(wf, "buf += hdr.pack()") and m.has(wf, "buf += req_hdr.pack()") and m.has(wf, "buf += data"),
             "R9", f"{wf.qualname}#sends", "write_frame must send header, address header and data and drain", loc=wf.loc)
 
     r.assumptions += ["asyncio.StreamReader.readexactly returns exactly n bytes or raises"]
